@@ -19,8 +19,16 @@ lvars == <<cfg, pc, att, delays, res>>
 
 Loads(f)   == f \in {"ok", "empty"}
 MainOK     == Loads(cfg.main)
-Succeeds   == MainOK /\ (Loads(cfg.personal) \/ cfg.personal = "missing")
-Failing    == IF MainOK THEN cfg.personal ELSE cfg.main          \* the file whose fault is reported
+\* cfg.heal = k >= 1: the environment repairs the file that fails during the wait that follows attempt k (a transient
+\* fault: an editor finishing its write, a mount appearing); 0: the faults are permanent
+HealedAt(n)  == cfg.heal >= 1 /\ n > cfg.heal
+EffMain(n)   == IF ~MainOK /\ HealedAt(n) THEN "ok" ELSE cfg.main
+EffPers(n)   == IF MainOK /\ HealedAt(n) THEN "ok" ELSE cfg.personal
+\* does attempt number n find loadable files, and if not, which file's fault is reported?
+SucceedsAt(n) == Loads(EffMain(n)) /\ (Loads(EffPers(n)) \/ EffPers(n) = "missing")
+FailingAt(n)  == IF Loads(EffMain(n)) THEN EffPers(n) ELSE EffMain(n)
+Succeeds   == SucceedsAt(att)
+Failing    == FailingAt(att)
 Final(f)   == f = "perm" \/ (f = "missing" /\ Classifier = "unwrap")
 EffMax     == IF cfg.maxatt >= 1 THEN cfg.maxatt ELSE (IF MinOne THEN 1 ELSE 0)
 NoRes      == [kind |-> "none", err |-> FALSE]
@@ -32,7 +40,7 @@ Start(c) ==
 Attempt ==
     /\ pc = "try"
     /\ att' = att + 1
-    /\ pc' = IF Succeeds THEN "loaded" ELSE "failed"
+    /\ pc' = IF SucceedsAt(att + 1) THEN "loaded" ELSE "failed"
     /\ UNCHANGED <<cfg, delays, res>>
 
 Retry(d) ==
@@ -63,7 +71,8 @@ Return(kind, err) == ReturnFrom(pc, kind, err)
 Done == pc = "done"
 Usable       == Done => (res.kind \in {"real", "builtin"} /\ ~res.err)
 RealIffLoads == Done => (res.kind = "real" <=> Succeeds)
-NoFutileRetry == Done => ((~Succeeds /\ Failing \in {"missing", "perm"}) => att = 1)
+\* no attempt follows one that failed on a missing or permission-denied file (with permanent faults: att = 1)
+NoFutileRetry == Done => \A n \in 1..(att - 1) : ~(~SucceedsAt(n) /\ FailingAt(n) \in {"missing", "perm"})
 AttemptBudget == Done => (att >= 1 /\ att <= (IF cfg.maxatt >= 1 THEN cfg.maxatt ELSE 1))
 WaitsOK == /\ \A i \in 1..Len(delays) : delays[i] <= cfg.cap
            /\ \A i \in 1..(Len(delays) - 1) : delays[i] <= delays[i + 1]
